@@ -125,6 +125,44 @@ structure Rip where
   entries : List RipEntry
   deriving DecidableEq, Repr
 
+/-- Neighbor Discovery options (icmpv6.py:141-402) -/
+inductive NdOpt where
+  | lla (t : Nat) (addr : Bytes)                                   -- source (1) / target (2) link-layer address
+  | prefix (plen : Nat) (onlink auto : Bool) (valid pref : Nat) (pfx : Bytes)
+  | mtu (v : Nat)
+  | generic (t : Nat) (raw : Bytes)
+  deriving DecidableEq, Repr
+
+/-- NDP message bodies (icmpv6.py:485-708) -/
+inductive NdMsg where
+  | rs (opts : List NdOpt)
+  | ra (hop : Nat) (managed other : Bool) (lifetime reachable retrans : Nat) (opts : List NdOpt)
+  | ns (target : Bytes) (opts : List NdOpt)
+  | na (router solicited override : Bool) (target : Bytes) (opts : List NdOpt)
+  deriving DecidableEq, Repr
+
+/-- a DHCP message; options at the byte level: (code, value) in dictionary order (every option class packs back to the
+bytes it was unpacked from, dhcp.py:361-600) -/
+structure Dhcp where
+  op : Nat
+  htype : Nat
+  hlen : Nat
+  hops : Nat
+  xid : Nat
+  secs : Nat
+  flags : Nat
+  ciaddr : Nat
+  yiaddr : Nat
+  siaddr : Nat
+  giaddr : Nat
+  chaddr : Bytes            -- 16 bytes as packed (an `EthAddr` is its 6 bytes + 10 zero bytes)
+  sname : Bytes
+  file : Bytes
+  magic : Bytes
+  opts : List (Nat × Bytes)
+  rawOpts : Bytes           -- `_raw_options`
+  deriving DecidableEq, Repr
+
 /-- object chains over all modelled classes -/
 inductive XPkt where
   | raw (b : Bytes)
@@ -153,11 +191,17 @@ inductive XPkt where
   | vxlan (h : Vxlan) (n : XPkt)
   | igmp (h : Igmp)
   | rip (h : Rip)
+  | nd (m : NdMsg)
+  | toobig6 (mtu : Nat) (n : XPkt)
+  | timeex6 (n : XPkt)
+  | unreach6 (unused : Nat) (n : XPkt)
+  | dhcp (h : Dhcp)
   deriving Repr
 
 inductive XKind where
   | core (k : Kind)
-  | llc | mpls | lldp | eapol | eap | ipv6 | icmp6 | echo6 | gre | vxlan | igmp | rip
+  | llc | mpls | lldp | eapol | eap | ipv6 | icmp6 | echo6 | gre | vxlan | igmp | rip | nd (t : Nat) | toobig6 | timeex6 | unreach6
+  | dhcp
   deriving DecidableEq, Repr
 
 /-- what `udp`/`tcp`/`icmpv6` read from `self.prev` -/
@@ -364,6 +408,95 @@ def ripHdr (h : Rip) : R Bytes := do
   let b ← ripEntriesPack h.entries
   pure (a ++ b)
 
+/-! ## NDP (icmpv6.py) and DHCP (dhcp.py) serialisation -/
+
+def ndOptType : NdOpt → Nat
+  | .lla t _ => t | .prefix .. => 3 | .mtu _ => 5 | .generic t _ => t
+
+def ndOptBody : NdOpt → R Bytes
+  | .lla _ a => pure a
+  | .prefix pl on au v p pre => do
+    let a ← pk [.uint 1, .uint 1, .uint 4, .uint 4] [.num pl, .num ((if on then 0x80 else 0) + (if au then 0x40 else 0)), .num v, .num p]
+    pure (a ++ ([0, 0, 0, 0] ++ pre))
+  | .mtu v => pk [.uint 2, .uint 4] [.num 0, .num v]
+  | .generic _ r => pure r
+
+/-- icmpv6.py:225-228 `NDOptionBase.pack`: body zero-padded so that the option is a multiple of 8 bytes -/
+def ndOptPack (o : NdOpt) : R Bytes := do
+  let d ← ndOptBody o
+  let d' := d ++ List.replicate ((8 - (d.length + 2) % 8) % 8) 0
+  let hd ← pk [.uint 1, .uint 1] [.num (ndOptType o), .num ((d'.length + 2) / 8)]
+  pure (hd ++ d')
+
+def ndOptsPack : List NdOpt → R Bytes
+  | [] => pure []
+  | o :: r => do
+    let a ← ndOptPack o
+    let b ← ndOptsPack r
+    pure (a ++ b)
+
+def ndMsgType : NdMsg → Nat
+  | .rs _ => 133 | .ra .. => 134 | .ns .. => 135 | .na .. => 136
+
+/-- `pack` of the four NDP message classes -/
+def ndMsgPack : NdMsg → R Bytes
+  | .rs os => do
+    let o ← ndOptsPack os
+    pure ([0, 0, 0, 0] ++ o)
+  | .ra hop m ot lt rc rt os => do
+    let a ← pk [.uint 1, .uint 1, .uint 2, .uint 4, .uint 4]
+      [.num hop, .num ((if m then 0x80 else 0) + (if ot then 0x40 else 0)), .num lt, .num rc, .num rt]
+    let o ← ndOptsPack os
+    pure (a ++ o)
+  | .ns tg os => do
+    let o ← ndOptsPack os
+    pure ([0, 0, 0, 0] ++ (tg ++ o))
+  | .na r so ov tg os => do
+    let o ← ndOptsPack os
+    pure ([UInt8.ofNat ((if r then 0x80 else 0) + (if so then 0x40 else 0) + (if ov then 0x20 else 0)), 0, 0, 0] ++ (tg ++ o))
+
+/-- `struct` format 'ns': the value is zero-padded / truncated to n bytes -/
+def padTo (n : Nat) (b : Bytes) : Bytes := (b ++ List.replicate n 0).take n
+
+def dhcpL : Layout := [.uint 1, .uint 1, .uint 1, .uint 1, .uint 4, .uint 2, .uint 2, .uint 4, .uint 4, .uint 4, .uint 4,
+                       .blob 16, .blob 64, .blob 128, .blob 4]           -- '!BBBBIHHiiii16s64s128s4s'
+
+def DHCP_MAGIC : Bytes := [0x63, 0x82, 0x53, 0x63]
+
+/-- dhcp.py:272-279 `addPart` -/
+def dhcpAddPart (k : Nat) (v : Bytes) : R Bytes :=
+  if k ≥ 256 ∨ v.length ≥ 256 then .error (.unmodelled "dhcp:ValueError") else
+  let o := UInt8.ofNat k :: UInt8.ofNat v.length :: v
+  pure (if o.length % 2 = 1 then o ++ [0] else o)
+
+/-- `[v[i:i+255] for i in range(0, len(v), 255)]` -/
+def chunks255 : Nat → Bytes → List Bytes
+  | 0, _ => []
+  | f+1, v => if v = [] then [] else v.take 255 :: chunks255 f (v.drop 255)
+
+def dhcpAddParts (k : Nat) : List Bytes → R Bytes
+  | [] => pure []
+  | p :: r => do
+    let a ← dhcpAddPart k p
+    let b ← dhcpAddParts k r
+    pure (a ++ b)
+
+/-- dhcp.py:281-293: PAD and END keys are skipped, values longer than 255 bytes are split (RFC 3396) -/
+def dhcpPackOpts : List (Nat × Bytes) → R Bytes
+  | [] => pure [255]
+  | (k, v) :: r => do
+    let a ← if k = 255 ∨ k = 0 then pure [] else if v.length > 255 then dhcpAddParts k (chunks255 v.length v) else dhcpAddPart k v
+    let b ← dhcpPackOpts r
+    pure (a ++ b)
+
+/-- dhcp.py:305-326: options are re-packed when the option dictionary was touched (here: is non-empty) -/
+def dhcpHdr (h : Dhcp) : R (Dhcp × Bytes) := do
+  let raw ← if h.opts.isEmpty then pure h.rawOpts else dhcpPackOpts h.opts
+  let fx ← pk dhcpL [.num h.op, .num h.htype, .num h.hlen, .num h.hops, .num h.xid, .num h.secs, .num h.flags, .num h.ciaddr,
+    .num h.yiaddr, .num h.siaddr, .num h.giaddr, .raw (padTo 16 h.chaddr), .raw (padTo 64 h.sname), .raw (padTo 128 h.file),
+    .raw (padTo 4 h.magic)]
+  pure ({ h with rawOpts := raw }, fx ++ raw)
+
 /-! ## code variants (proposed repairs that change modelled behaviour; which one a tree has is read off its source by
 harness/c14.py `detect_variant` and passed to the driver) -/
 
@@ -502,6 +635,23 @@ def xpackU (cfg : XCfg) : Option XCtx → XPkt → R (XPkt × Bytes)
   | _, .rip h => do
     let hd ← ripHdrV cfg.ripUnsigned h
     pure (.rip h, hd)
+  | _, .nd m => do
+    let hd ← ndMsgPack m
+    pure (.nd m, hd)
+  | _, .toobig6 mtu n => do
+    let (n', rest) ← xpackU cfg none n
+    let hd ← pk [.uint 4] [.num mtu]
+    pure (.toobig6 mtu n', hd ++ rest)
+  | _, .timeex6 n => do
+    let (n', rest) ← xpackU cfg none n
+    pure (.timeex6 n', [0, 0, 0, 0] ++ rest)
+  | _, .unreach6 u n => do
+    let (n', rest) ← xpackU cfg none n
+    let hd ← pk [.uint 4] [.num u]
+    pure (.unreach6 u n', hd ++ rest)
+  | _, .dhcp h => do
+    let (h', hd) ← dhcpHdr h
+    pure (.dhcp h', hd)
 
 def xpack (cfg : XCfg) (ctx : Option XCtx) (p : XPkt) : R Bytes := do
   let (_, b) ← xpackU cfg ctx p
@@ -571,7 +721,8 @@ def contOf (next : XNext) (tag : String) (b : Bytes) : XPkt :=
   else if tag = "igmp" then next none .igmp b
   else if tag = "rip" then next none .rip b
   else if tag = "vxlan" then next none .vxlan b
-  else .unmodelled tag b                                       -- dhcp, dns, mptcp, fuel
+  else if tag = "dhcp" then next none .dhcp b
+  else .unmodelled tag b                                       -- dns, mptcp, fuel
 
 /-- llc.py:61-101 -/
 def llcParse (next : XNext) (raw : Bytes) : XPkt :=
@@ -723,7 +874,8 @@ def echo6Parse (raw : Bytes) : XPkt :=
   | some [.num id, .num seq] => .echo6 ⟨id, seq⟩ (.raw (raw.drop 4))
   | _ => .unparsed "echo" raw
 
-/-- icmpv6.py:925-1005: the checksum is verified against the enclosing IPv6 header; only echo is modelled below -/
+/-- icmpv6.py:925-1005: the checksum is verified against the enclosing IPv6 header; the body goes to echo, the NDP
+message classes (which get the whole ICMPv6 message and start at offset 4), packet-too-big, time-exceeded or unreachable -/
 def icmp6Parse (ctx : Option XCtx) (next : XNext) (raw : Bytes) : XPkt :=
   if raw.length < 4 then .unparsed "icmpv6" raw else
   match unpack icmpL (raw.take 4) with
@@ -736,8 +888,10 @@ def icmp6Parse (ctx : Option XCtx) (next : XNext) (raw : Bytes) : XPkt :=
       | _ => true
     if ok = false then .unparsed "icmpv6" raw
     else if type = 128 ∨ type = 129 then .icmp6 ⟨type, code, csum⟩ (next none .echo6 (raw.drop 4))
-    else if type = 1 ∨ type = 2 ∨ type = 3 ∨ type = 133 ∨ type = 134 ∨ type = 135 ∨ type = 136 then
-      .unmodelled "icmpv6:ndp-or-error" raw
+    else if type = 133 ∨ type = 134 ∨ type = 135 ∨ type = 136 then .icmp6 ⟨type, code, csum⟩ (next none (.nd type) raw)
+    else if type = 2 then .icmp6 ⟨type, code, csum⟩ (next none .toobig6 (raw.drop 4))
+    else if type = 3 then .icmp6 ⟨type, code, csum⟩ (next none .timeex6 (raw.drop 4))
+    else if type = 1 then .icmp6 ⟨type, code, csum⟩ (next none .unreach6 (raw.drop 4))
     else .icmp6 ⟨type, code, csum⟩ (.raw (raw.drop 4))
   | _ => .unparsed "icmpv6" raw
 
@@ -849,6 +1003,102 @@ def ripParse (raw : Bytes) : XPkt :=
     else .rip ⟨command, version, ripEntriesParse raw.length (raw.drop 4)⟩
   | _ => .unparsed "rip" raw
 
+/-- icmpv6.py:186-223 `NDOptionBase.unpack_new` at `off`; `none` = `TruncatedException` -/
+def ndOptUnpack (raw : Bytes) (off : Nat) : Option (NdOpt × Nat) :=
+  match getU8 raw off, getU8 raw (off + 1) with
+  | some t, some l =>
+    if l = 0 then none else
+    let len := l * 8 - 2
+    if raw.length - (off + 2) < len then none else
+    let body := sl raw (off + 2) (off + 2 + len)
+    if t = 1 ∨ t = 2 then (if len ≠ 6 then none else some (.lla t body, off + 2 + len))
+    else if t = 3 then
+      if len ≠ 30 then none else
+      let fl := (getU8 body 1).getD 0
+      some (.prefix ((getU8 body 0).getD 0) ((fl / 128) % 2 == 1) ((fl / 64) % 2 == 1) (beDec (sl body 2 6)) (beDec (sl body 6 10))
+        (sl body 14 30), off + 2 + len)
+    else if t = 5 then (if len ≠ 6 then none else some (.mtu (beDec (sl body 2 6)), off + 2 + len))
+    else some (.generic t body, off + 2 + len)
+  | _, _ => none
+
+/-- icmpv6.py:122-138 `_parse_ndp_options`; `none` = `TruncatedException` (caught by the message class) -/
+def ndOptsParse : Nat → Bytes → Nat → Option (List NdOpt)
+  | 0, _, _ => none
+  | f+1, raw, off =>
+    if off + 2 < raw.length then
+      if (raw.length - off) % 8 ≠ 0 then none else
+      match ndOptUnpack raw off with
+      | none => none
+      | some (o, off') => (ndOptsParse f raw off').map (o :: ·)
+    else some []
+
+/-- `unpack_new` of the four NDP message classes on the whole ICMPv6 message (`offset = 4`); a truncated message keeps
+the class defaults, unparsable options leave the option list empty (and, for RA, the flags unset: icmpv6.py:561-563) -/
+def ndParse (t : Nat) (raw : Bytes) : XPkt :=
+  let opts (off : Nat) : Option (List NdOpt) := ndOptsParse (raw.length + 1) raw off
+  if t = 133 then .nd (.rs ((opts 8).getD []))
+  else if t = 134 then
+    if raw.length - 4 < 12 then .nd (.ra 0 false false 0 0 0 []) else
+    let fl := (getU8 raw 5).getD 0
+    match opts 16 with
+    | some os => .nd (.ra ((getU8 raw 4).getD 0) ((fl / 128) % 2 == 1) ((fl / 64) % 2 == 1) (beDec (sl raw 6 8)) (beDec (sl raw 8 12))
+                      (beDec (sl raw 12 16)) os)
+    | none => .nd (.ra ((getU8 raw 4).getD 0) false false (beDec (sl raw 6 8)) (beDec (sl raw 8 12)) (beDec (sl raw 12 16)) [])
+  else if t = 135 then
+    if raw.length - 4 < 20 then .nd (.ns (List.replicate 16 0) []) else
+    .nd (.ns (sl raw 8 24) ((opts 24).getD []))
+  else
+    if raw.length - 4 < 20 then .nd (.na false false false (List.replicate 16 0) []) else
+    let fl := (getU8 raw 4).getD 0
+    .nd (.na ((fl / 128) % 2 == 1) ((fl / 64) % 2 == 1) ((fl / 32) % 2 == 1) (sl raw 8 24) ((opts 24).getD []))
+
+/-- icmpv6.py:778-801 `PacketTooBig.unpack_new` (on the bytes after the ICMPv6 header) -/
+def toobig6Parse (raw : Bytes) : XPkt :=
+  if raw.length < 4 then .toobig6 0 .nil else .toobig6 (beDec (raw.take 4)) (.raw (raw.drop 4))
+
+/-- icmpv6.py:730-748 `TimeExceeded.unpack_new` -/
+def timeex6Parse (raw : Bytes) : XPkt := .timeex6 (.raw (raw.drop 4))
+
+/-- icmpv6.py:905-925 `unreach.parse`: ≥ 44 quoted bytes are parsed as IPv6 -/
+def unreach6Parse (next : XNext) (raw : Bytes) : XPkt :=
+  if raw.length < 4 then .unparsed "unreach" raw else
+  .unreach6 (beDec (raw.take 4)) (if raw.length ≥ 48 then next none .ipv6 (raw.drop 4) else .raw (raw.drop 4))
+
+/-- dict update of `parseOptionSegment`: a repeated code appends to its value (RFC 3396), in place -/
+def dhcpUpsert : List (Nat × Bytes) → Nat → Bytes → List (Nat × Bytes)
+  | [], k, v => [(k, v)]
+  | (k', v') :: r, k, v => if k' = k then (k', v' ++ v) :: r else (k', v') :: dhcpUpsert r k v
+
+/-- dhcp.py:244-268 `parseOptionSegment` -/
+def dhcpParseSeg : Nat → Bytes → Nat → List (Nat × Bytes) → List (Nat × Bytes)
+  | 0, _, _, acc => acc
+  | f+1, barr, ofs, acc =>
+    if ofs < barr.length then
+      match getU8 barr ofs with
+      | none => acc
+      | some opt =>
+        if opt = 255 then acc
+        else if opt = 0 then dhcpParseSeg f barr (ofs + 1) acc
+        else if ofs + 1 ≥ barr.length then acc
+        else match getU8 barr (ofs + 1) with
+          | none => acc
+          | some len =>
+            if ofs + 2 + len > barr.length then acc
+            else dhcpParseSeg f barr (ofs + 2 + len) (dhcpUpsert acc opt (sl barr (ofs + 2) (ofs + 2 + len)))
+    else acc
+
+/-- dhcp.py:173-218.  (The overload option is never honoured: `opt_val == 1` compares bytes with an int.) -/
+def dhcpParse (raw : Bytes) : XPkt :=
+  if raw.length < 240 then .unparsed "dhcp" raw else
+  match unpack [.uint 1, .uint 1, .uint 1, .uint 1, .uint 4, .uint 2, .uint 2, .uint 4, .uint 4, .uint 4, .uint 4] (raw.take 28) with
+  | some [.num op, .num htype, .num hlen, .num hops, .num xid, .num secs, .num flags, .num ci, .num yi, .num si, .num gi] =>
+    let chaddr := if hlen = 6 then sl raw 28 34 ++ List.replicate 10 0 else sl raw 28 44
+    let magic := sl raw 236 240
+    let h : Dhcp := ⟨op, htype, hlen, hops, xid, secs, flags, ci, yi, si, gi, chaddr, sl raw 44 108, sl raw 108 236, magic, [], []⟩
+    if hlen > 16 ∨ magic ≠ DHCP_MAGIC then .dhcp h
+    else .dhcp { h with opts := dhcpParseSeg (raw.length + 1) (raw.drop 240) 0 [], rawOpts := raw.drop 240 }
+  | _ => .unparsed "dhcp" raw
+
 /-- `eap.parse` with repair D49: a request/response keeps everything after the 4-byte header (type octet + type data) as
 its opaque payload, so `hdr + payload` reproduces the message -/
 def eapParseB (raw : Bytes) : XPkt :=
@@ -916,6 +1166,11 @@ def xparse (cfg : XCfg) : Nat → Option XCtx → XKind → Bytes → XPkt
     | .vxlan => vxlanParse (xparse cfg fuel) raw
     | .igmp => igmpParse raw
     | .rip => ripParseV cfg.ripUnsigned raw
+    | .nd t => ndParse t raw
+    | .toobig6 => toobig6Parse raw
+    | .timeex6 => timeex6Parse raw
+    | .unreach6 => unreach6Parse (xparse cfg fuel) raw
+    | .dhcp => dhcpParse raw
 
 def xparseTop (cfg : XCfg) (k : XKind) (raw : Bytes) : XPkt := xparse cfg (raw.length + 1) none k raw
 
